@@ -16,6 +16,8 @@ extern int    vc_memcmp_result;
 extern size_t vc_memcmp_n;
 extern const void *vc_memcmp_a, *vc_memcmp_b;
 extern size_t vc_strlen_result;
+extern size_t vc_memcmp_idx;   /* existential witness: index of the first differing byte */
+extern size_t vc_j;
 
 /* memset: C11 7.24.6.1. CBMC's built-in model is exact only for constant sizes
  * (measured: a symbolic-size memset leaves the object unconstrained), so the
@@ -30,6 +32,39 @@ __CPROVER_ensures(__CPROVER_return_value == s)
 __CPROVER_ensures((c == 0 && vc_k < n / sizeof(binson_state)) ==>
                   VC_LEVEL_ZERO(&((binson_state *) s)[vc_k]))
 __CPROVER_ensures((c == 0 && n >= sizeof(binson_state)) ==> VC_LEVEL_ZERO(&((binson_state *) s)[0]))
+;
+
+
+/* memcmp: C11 7.24.4.1 - compares the first n bytes as unsigned char; the sign of a non-zero
+ * result is the sign of the difference of the first differing pair. n == 0 touches nothing
+ * (assumption 1 of DESIGN.md section 7: true of every libc, formally unspecified for invalid
+ * pointers). Stated with the ghost byte index vc_j and the existential witness vc_memcmp_idx. */
+int vc_memcmp(const void *a, const void *b, size_t n)
+__CPROVER_requires(n == 0 || (__CPROVER_r_ok(a, n) && __CPROVER_r_ok(b, n)))
+__CPROVER_assigns(vc_memcmp_result, vc_memcmp_n, vc_memcmp_a, vc_memcmp_b, vc_memcmp_idx)
+__CPROVER_ensures(vc_memcmp_result == __CPROVER_return_value && vc_memcmp_n == n &&
+                  vc_memcmp_a == a && vc_memcmp_b == b)
+__CPROVER_ensures((__CPROVER_return_value == 0 && vc_j < n) ==>
+                  ((const unsigned char *) a)[vc_j] == ((const unsigned char *) b)[vc_j])
+__CPROVER_ensures(__CPROVER_return_value != 0 ==>
+                  (vc_memcmp_idx < n &&
+                   ((const unsigned char *) a)[vc_memcmp_idx] != ((const unsigned char *) b)[vc_memcmp_idx] &&
+                   ((__CPROVER_return_value < 0) ==
+                    (((const unsigned char *) a)[vc_memcmp_idx] < ((const unsigned char *) b)[vc_memcmp_idx])) &&
+                   (vc_j < vc_memcmp_idx ==>
+                    ((const unsigned char *) a)[vc_j] == ((const unsigned char *) b)[vc_j])))
+;
+
+/* strlen: C11 7.24.6.3 - index of the first NUL. The argument must be a string whose
+ * terminator is known to lie within vc_cstr_max bytes (ghost, set by the harness that built
+ * the string): that is "s points to a valid C string" without quantifiers. */
+extern size_t vc_cstr_max;
+size_t vc_strlen(const char *s)
+__CPROVER_requires(__CPROVER_r_ok(s, vc_cstr_max + 1) && s[vc_cstr_max] == 0)
+__CPROVER_assigns(vc_strlen_result)
+__CPROVER_ensures(vc_strlen_result == __CPROVER_return_value && __CPROVER_return_value <= vc_cstr_max)
+__CPROVER_ensures(s[__CPROVER_return_value] == 0)
+__CPROVER_ensures(vc_j < __CPROVER_return_value ==> s[vc_j] != 0)
 ;
 
 #endif
